@@ -30,11 +30,11 @@ import (
 )
 
 const schemaText = `
-interface Node { id: ID! kids(n: Int): [Node!]! peer: Node label: String }
-type A implements Node { id: ID! kids(n: Int): [Node!]! peer: Node label: String items(n: Int): [Item!]! }
-type B implements Node { id: ID! kids(n: Int): [Node!]! peer: Node label: String other: U }
+interface Node { id: ID! kids(n: Int = 3): [Node!]! peer: Node label: String }
+type A implements Node { id: ID! kids(n: Int = 3): [Node!]! peer: Node label: String items(n: Int): [Item!]! }
+type B implements Node { id: ID! kids(n: Int = 3): [Node!]! peer: Node label: String other: U }
 union U = A | B | Item
-type Item { name: String owner: Node u: U count(n: Int): Int }
+type Item { name: String owner: Node u: U count(n: Int = 2): Int }
 type Query { node: Node a: A b: B items(n: Int): [Item!]! u: U }
 `
 
@@ -311,10 +311,28 @@ func Run(c *gen.Ctx) error {
 	saturated, negatives, invalid := 0, 0, 0
 	impls := implsCoq(schema)
 	rq := r.Fork(2)
+	// pinned: an argument with a schema default fed by a variable that is given no value (the argument then has its
+	// default), by one that is null, by one with a default of its own - each under several cost tables
+	pinnedOps := []struct {
+		q    string
+		vars map[string]any
+	}{
+		{`query Op($n: Int) { node { kids(n: $n) { id } } }`, map[string]any{}},
+		{`query Op($n: Int) { node { kids(n: $n) { id } } }`, map[string]any{"n": nil}},
+		{`query Op($n: Int) { node { kids(n: $n) { id } } }`, map[string]any{"n": 7}},
+		{`query Op($n: Int = 5) { a { kids(n: $n) { id kids { id } } } }`, map[string]any{}},
+		{`query Op($n: Int, $m: Int) { items(n: $m) { count(n: $n) name } }`, map[string]any{}},
+		{`query Op($n: Int) { a { items(n: $n) { count } kids { id } } }`, map[string]any{}},
+	}
+	pinnedLeft := 10 * len(pinnedOps)
 	for calc.Len() < ncalc || gate.Len() < ngate {
 		g := qgen.New(rq, schema, qgen.Options{MaxDepth: 2 + rq.Intn(4), MaxWidth: 1 + rq.Intn(4), SkipInclude: true, Introspection: true,
 			Typename: true, Variables: true, FragmentRate: 30, AliasRate: 20})
 		q, rawVars := g.Operation(ast.Query)
+		if pinnedLeft > 0 {
+			pinnedLeft--
+			q, rawVars = pinnedOps[pinnedLeft%len(pinnedOps)].q, pinnedOps[pinnedLeft%len(pinnedOps)].vars
+		}
 		doc, errs := gqlparser.LoadQuery(schema, q)
 		if errs != nil {
 			invalid++
